@@ -80,9 +80,80 @@ type result struct {
 }
 
 type finding struct {
-	Key  string `json:"key"`
-	Msg  string `json:"msg"`
-	Spec Spec   `json:"spec"`
+	What   string   `json:"what"`
+	Pod    string   `json:"pod"`
+	Causes []string `json:"causes"` // deviation classes (kind@verb-ObjectKind) of the violating attempt(s), sorted
+	Msg    string   `json:"msg"`
+	Spec   Spec     `json:"spec"`
+}
+
+func (f *finding) key() string {
+	c := "none"
+	if len(f.Causes) > 0 {
+		c = strings.Join(f.Causes, "+")
+	}
+	return fmt.Sprintf("C11/%s pod=%s fault=%s", f.What, f.Pod, c)
+}
+
+func specSize(s Spec) int {
+	n := 0
+	for _, a := range s.Attempts {
+		n += 100 + len(a)*10000
+		for _, d := range a {
+			n += d.At
+		}
+	}
+	return n
+}
+
+// subset reports whether multiset a is contained in multiset b (both sorted).
+func subset(a, b []string) bool {
+	i := 0
+	for _, x := range b {
+		if i < len(a) && a[i] == x {
+			i++
+		}
+	}
+	return i == len(a)
+}
+
+// minimise keeps, per (what, pod kind), only the findings whose cause set is minimal (no other
+// finding of the group has a cause set strictly contained in it) and, per minimal cause set, the
+// smallest choice sequence. The enumeration is exhaustive, so the result is deterministic.
+func minimise(all []finding) []finding {
+	type gk struct{ what, pod string }
+	groups := map[gk][]finding{}
+	for _, f := range all {
+		k := gk{f.What, f.Pod}
+		groups[k] = append(groups[k], f)
+	}
+	var out []finding
+	for _, fs := range groups {
+		best := map[string]finding{}
+		count := map[string]int{}
+		for _, f := range fs {
+			ck := strings.Join(f.Causes, "+")
+			count[ck]++
+			if b, ok := best[ck]; !ok || specSize(f.Spec) < specSize(b.Spec) || (specSize(f.Spec) == specSize(b.Spec) && f.Spec.String() < b.Spec.String()) {
+				best[ck] = f
+			}
+		}
+		for ck, f := range best {
+			minimal := true
+			for ok2, g := range best {
+				if ok2 != ck && len(g.Causes) < len(f.Causes) && subset(g.Causes, f.Causes) {
+					minimal = false
+					break
+				}
+			}
+			if minimal {
+				f.Msg = fmt.Sprintf("%s (seen on %d explored executions with exactly this cause set; %d executions of this pod kind show the same symptom in total)", f.Msg, count[ck], len(fs))
+				out = append(out, f)
+			}
+		}
+	}
+	sort.Slice(out, func(i, j int) bool { return out[i].key() < out[j].key() })
+	return out
 }
 
 type sample struct {
@@ -219,7 +290,7 @@ func (r *runner) exec(sc *br.Scenario, spec Spec, ref *AttemptObs, nDev int) *Ou
 		}
 	}
 	for _, f := range o.Findings {
-		r.res.Findings = append(r.res.Findings, finding{Key: makeKey(sc, o, f), Msg: f.Msg + " | choice sequence: " + spec.String() + " | deviated calls: " + devCalls(o), Spec: spec})
+		r.res.Findings = append(r.res.Findings, finding{What: f.Key, Pod: sc.Name, Causes: causesOf(o, f), Msg: f.Msg + " | choice sequence: " + spec.String() + " | deviated calls: " + devCalls(o), Spec: spec})
 	}
 	if len(r.res.Samples) < 2 && (nDev > 0) && (changed || len(o.Attempts) > 1) {
 		r.res.Samples = append(r.res.Samples, sample{Choice: spec.String() + " deviated: " + devCalls(o), Outcome: append([]string{fmt.Sprintf("attempt err=%q crashed=%v recovery rounds=%d", last.Err, last.Crashed, o.Recovery.Rounds)}, o.Final...), Changed: changed})
@@ -261,23 +332,25 @@ func devCalls(o *Outcome) string {
 	return strings.Join(parts, ", ")
 }
 
-// makeKey names WHAT fails and the cause class (pod kind, deviation kinds and the kind of call hit),
-// never run-specific data.
-func makeKey(sc *br.Scenario, o *Outcome, f br.Finding) string {
+// causesOf names the cause class of a finding: the deviation kinds and the kind of call they hit,
+// for the attempt that raised the finding (attempt-level oracle) or for all attempts (recovery
+// oracle) – never run-specific data.
+func causesOf(o *Outcome, f br.Finding) []string {
 	causes := []string{}
-	for _, a := range o.Attempts {
+	for i, a := range o.Attempts {
+		if f.Attempt >= 0 && f.Attempt != i {
+			continue
+		}
 		for _, c := range a.Devs {
 			tk := c.Target
-			if i := strings.Index(tk, " "); i > 0 {
-				tk = tk[:i]
+			if j := strings.Index(tk, " "); j > 0 {
+				tk = tk[:j]
 			}
 			causes = append(causes, fmt.Sprintf("%s@%s-%s", c.Dev, c.Verb, tk))
 		}
 	}
-	if len(causes) == 0 {
-		causes = []string{"none"}
-	}
-	return fmt.Sprintf("C11/%s pod=%s fault=%s", f.Key, sc.Name, strings.Join(causes, "+"))
+	sort.Strings(causes)
+	return causes
 }
 
 func (r *runner) runJob(in *scenInfo, j job) {
@@ -397,6 +470,7 @@ func run(tier string) int {
 	agg := result{ByBound: map[string]int{}}
 	var samples []sample
 	jobsDone := 0
+	var allFindings []finding
 	herr := ""
 	err = engine.RunWorkers(workers, nil, 8*1024*1024, func(_ int, line []byte) {
 		var r result
@@ -416,9 +490,7 @@ func run(tier string) int {
 		for k, v := range r.ByBound {
 			agg.ByBound[k] += v
 		}
-		for _, f := range r.Findings {
-			rep.Add(engine.Violation{Property: "C11", Key: f.Key, Message: f.Key + ": " + f.Msg, Replay: f.Spec})
-		}
+		allFindings = append(allFindings, r.Findings...)
 		samples = append(samples, r.Samples...)
 	})
 	if err != nil {
@@ -432,6 +504,13 @@ func run(tier string) int {
 	if len(agg.Diverged) > 0 {
 		fmt.Fprintf(os.Stderr, "harness error: %d replayed executions diverged, e.g. %s\n", len(agg.Diverged), agg.Diverged[0])
 		return 2
+	}
+	minimal := minimise(allFindings)
+	for _, f := range minimal {
+		if os.Getenv("VERIF_KEYS") != "" {
+			fmt.Printf("KEY %s\n        %s\n", f.key(), f.Msg)
+		}
+		rep.Add(engine.Violation{Property: "C11", Key: f.key(), Message: f.key() + ": " + f.Msg, Replay: f.Spec})
 	}
 	// vacuity guards
 	callsPerKind := map[string]int{}
@@ -559,9 +638,9 @@ func replay(path string) int {
 	}
 	found := false
 	for _, f := range o.Findings {
-		k := makeKey(sc, o, f)
-		fmt.Printf("  oracle: %s: %s\n", k, f.Msg)
-		if k == v.Key {
+		ff := finding{What: f.Key, Pod: sc.Name, Causes: causesOf(o, f)}
+		fmt.Printf("  oracle: %s: %s\n", ff.key(), f.Msg)
+		if ff.key() == v.Key {
 			found = true
 		}
 	}
